@@ -130,6 +130,8 @@ class BackendRegistryState:
 
         self.backends.append(backend)
         self.name_to_backend[backend.name] = backend
+        # Backends memoized for tensor types may be outdated now: the new backend could accept some of these types
+        self.tensortypes_to_backend.clear()
 
     def _register_on_import(self, module_name, backend_name, backend_factory):
         if module_name in sys.modules:
